@@ -71,6 +71,8 @@ def handle : Handler
   | "pre.spliton", args => str2 (fun s p => outList hexStr (splitOn s p)) args
   | "pre.splitonce", args =>
     str2 (fun s p => outExc (fun (a, b) => hexStr a ++ "|" ++ hexStr b) (splitOnce s p)) args
+  | "pre.rsplitonce", args =>
+    str2 (fun s p => outExc (fun (a, b) => hexStr a ++ "|" ++ hexStr b) (rsplitOnce s p)) args
   | "pre.replace", args => str3 (fun s a b => hexStr (replace s a b)) args
   | "pre.stripc", args => str2 (fun s c => hexStr (stripChars s c)) args
   | "pre.lstripc", args => str2 (fun s c => hexStr (lstripChars s c)) args
@@ -80,6 +82,7 @@ def handle : Handler
   | "pre.rstrip", args => str1 (fun s => hexStr (rstrip s)) args
   | "pre.lower", args => str1 (fun s => hexStr (lower s)) args
   | "pre.upper", args => str1 (fun s => hexStr (upper s)) args
+  | "pre.title", args => str1 (fun s => hexStr (title s)) args
   | "pre.asciiignore", args => str1 (fun s => hexStr (asciiIgnore s)) args
   | "pre.newlinere", args => str1 (fun s => outBool (newlineReSearch s).isSome) args
   | "pre.isascii", args => str1 (fun s => outBool (isascii s)) args
@@ -120,6 +123,51 @@ def handle : Handler
             else setRemove s cv.2) (.ok start)
         outExc (outList hexStr) r
       | _, _ => badArgs)
+  | "pre.dictops", [l, ops] =>
+    -- dict built from the `k=v` pairs of l by item assignment, then a sequence of operations:
+    -- `s<k>=<v>` d[k] = v, `d<k>` d.pop(k, None) / del, `p<k>` d.pop(k) (KeyError), `g<k>` d[k] (KeyError);
+    -- output: the results of g / p followed by the final items
+    some (match (if l == "[]" then some [] else (l.splitOn ",").mapM fun kv =>
+        match kv.splitOn "=" with
+        | [k, v] => match unhexStr k, unhexStr v with | some k, some v => some (k, v) | _, _ => none
+        | _ => none),
+      (if ops == "[]" then some [] else (ops.splitOn ",").mapM fun o =>
+        match o.toList with
+        | c :: rest =>
+          match (String.ofList rest).splitOn "=" with
+          | [k] => (unhexStr k).map fun k => (c, k, ([] : Str))
+          | [k, v] => match unhexStr k, unhexStr v with | some k, some v => some (c, k, v) | _, _ => none
+          | _ => none
+        | [] => none) with
+      | some l, some ops =>
+        let start : List (Str × Str) := l.foldl (fun d kv => dictSet d kv.1 kv.2) []
+        let r : Except String (List String × List (Str × Str)) := ops.foldl (fun acc (o : Char × Str × Str) =>
+          match acc with
+          | .error e => .error e
+          | .ok (outs, d) =>
+            if o.1 == 's' then .ok (outs, dictSet d o.2.1 o.2.2)
+            else if o.1 == 'd' then .ok (outs, dictDel d o.2.1)
+            else if o.1 == 'h' then .ok (outs ++ [outBool (dictHas d o.2.1)], d)
+            else if o.1 == 'q' then .ok (outs ++ [hexStr (dictGetD d o.2.1 ['?'])], d)
+            else if o.1 == 'p' then
+              match dictPop d o.2.1 with
+              | .ok (v, d') => .ok (outs ++ [hexStr v], d')
+              | .error e => .error e
+            else
+              match dictGetItem d o.2.1 with
+              | .ok v => .ok (outs ++ [hexStr v], d)
+              | .error e => .error e) (.ok ([], start))
+        outExc (fun (p : List String × List (Str × Str)) =>
+          outList id p.1 ++ "|" ++ outList (fun (kv : Str × Str) => hexStr kv.1 ++ "=" ++ hexStr kv.2) (dictItems p.2)
+            ++ "|" ++ outList hexStr (dictKeys p.2) ++ "|" ++ outList hexStr (dictValues p.2)) r
+      | _, _ => badArgs)
+  | "pre.enclatin1", args => str1 (fun s => outExc hex (encodeLatin1 s)) args
+  | "pre.utf8latin1", args => str1 (fun s => hexStr (utf8ThenLatin1 s)) args
+  | "pre.decutf8replace", [b] => some (match unhex b with | some b => hexStr (decodeUtf8Replace b) | none => badArgs)
+  | "pre.sorted", [l] => some (match strList l with | some l => outList hexStr (sortedStr l) | none => badArgs)
+  | "pre.frozenset", [l] => some (match strList l with | some l => outList hexStr (frozenset l) | none => badArgs)
+  | "pre.splitwsonce", args =>
+    str1 (fun s => outExc (fun (a, b) => hexStr a ++ "|" ++ hexStr b) (splitWsOnce s)) args
   | "pre.enumerate", [l] =>
     some (match strList l with
       | some l => outList (fun (p : Int × Str) => toString p.1 ++ ":" ++ hexStr p.2) (enumerate l)
